@@ -27,6 +27,7 @@ class Sim:
         self.quiescent_rounds = 0
         self.gave_up = False
         self.draining = False   # set after repeated quiescence: actors skip their remaining steps
+        self.nest = 0           # extra (unshielded, never cancelled) scopes between the cancelled scope and the operation
         self.on_monitor = None
 
     def now(self):
@@ -44,7 +45,14 @@ class Sim:
         self.progress += 1
         try:
             with sc:
-                yield sc
+                if self.nest == 1:
+                    with CancelScope():
+                        yield sc
+                elif self.nest >= 2:
+                    with CancelScope(), CancelScope():
+                        yield sc
+                else:
+                    yield sc
         finally:
             self.scopes.pop(aid, None)
             self.cancel_req.pop(aid, None)
